@@ -122,6 +122,16 @@ fn corpus_build() -> Vec<(&'static str, P, P)> {
             POh { w: vec![0, 1], e: vec![e(0, &[0], &[1])], s: vec![0], t: vec![0, 1] },
             POh { w: vec![1, 0], e: vec![e(1, &[0, 1], &[])], s: vec![0, 1], t: vec![] },
         ),
+        // more than a thousand components survive the gluing: identities on 1100 wires, and two rows of 600 unary
+        // operations glued pairwise
+        ("wide_identities_1100", POh::identity((0..1100).map(|i| i % 3).collect()), POh::identity((0..1100).map(|i| i % 3).collect())),
+        ("two_rows_of_600_operations", {
+            let n = 600;
+            POh { w: vec![0; 2 * n], e: (0..n).map(|k| e(k as u64, &[k], &[n + k])).collect(), s: (0..n).collect(), t: (n..2 * n).collect() }
+        }, {
+            let n = 600;
+            POh { w: vec![0; 2 * n], e: (0..n).map(|k| e(1000 + k as u64, &[k], &[n + k])).collect(), s: (0..n).collect(), t: (n..2 * n).collect() }
+        }),
         ("stress_zigzag_10k", zf2, zg2),
     ]
 }
@@ -185,12 +195,20 @@ impl C01 {
                     if big {
                         // closed form: compare sizes and interfaces directly (1 class expected)
                         if let Some(got) = walk(ctx, api, class, &h, &input) {
+                            // (sizes, types, the partitions of both interfaces jointly, and the multiset of hyperedge labels
+                            // with their arities; the full isomorphism search is reserved for the small cases)
+                            let joint = |p: &POh<O, A>| -> Vec<usize> { p.s.iter().chain(p.t.iter()).cloned().collect() };
                             let ok = got.w.len() == m.w.len()
                                 && got.e.len() == m.e.len()
                                 && got.src_type() == m.src_type()
                                 && got.tgt_type() == m.tgt_type()
                                 && same_partition(&got.s, &m.s)
-                                && same_partition(&got.t, &m.t);
+                                && same_partition(&got.t, &m.t)
+                                && same_partition(&joint(&got), &joint(m))
+                                && {
+                                    let key = |p: &POh<O, A>| { let mut v: Vec<(A, usize, usize)> = p.e.iter().map(|x| (x.l.clone(), x.s.len(), x.t.len())).collect(); v.sort(); v };
+                                    key(&got) == key(m)
+                                };
                             ctx.check(ok, &format!("{}/pushout/value/{}", api, class), || {
                                 json!({"input": "stress shape", "observed_nodes": got.w.len(), "expected_nodes": m.w.len()})
                             });
@@ -301,6 +319,8 @@ impl Monitor for C01 {
             ("class:mismatch_by_length", 1),
             ("class:mismatch_by_one_label", 1),
             ("class:mismatch_by_permutation", 1),
+            ("class:wide_identities_1100", 1),
+            ("class:two_rows_of_600_operations", 1),
             ("class:long_identification_chain_on_a_thread_stack", 4),
             ("class:labels_are_strings", 100),
             ("class:labels_are_unit", 100),
